@@ -31,6 +31,25 @@ def gen(seed, tier):
     from .c10 import local_method_scenario
 
     local_method_scenario(pl, _r.Random(seed ^ 0xC10), seed)
+    if "levels" in pl and len(pl["levels"]) == 3 and seed % 6 == 1:
+        # every level has its own problem, and the directions differ (root minimises f, a lower level maximises -f)
+        import copy as _c
+
+        base = pl["stacks"][pl["level_stack"][0]]
+        pl["stacks"] = [_c.deepcopy(base) for _ in range(3)]
+        pl["level_stack"] = [0, 1, 2]
+        if pl["gsc"]["kind"] == "precision":
+            pl["gsc"]["stack"] = 0
+        dirs = [bool(pl["maximize"]), not pl["maximize"], bool((seed // 6) % 2)]
+        objs = []
+        for si in range(3):
+            pl["stacks"][si]["maximize"] = dirs[si]
+            o = _c.deepcopy(pl["objective"])
+            if dirs[si] != bool(pl["maximize"]):
+                o["sign"] = -o.get("sign", 1.0)
+            objs.append(o)
+        pl["stack_objectives"] = objs
+        pl["mixed_directions"] = True
     sp = pl.get("sprout")
     if sp and "generator" in sp:
         # make several candidates per parent likely: NBC generator, DemeLimit(k>1) or none
@@ -96,6 +115,8 @@ class C08Monitor(Monitor):
             self.freed_step[deme._level] = self.w.step
 
     def on_sprout_begin(self, tree):
+        if self.w.plan.get("mixed_directions"):
+            self.w.probe("c08-mixed-directions-round")
         self._census("sprout-begin")
         self.round_begin = {"active": [sum(1 for d in lv if d._active) for lv in tree.levels],
                             "ids": {id(d) for d in all_demes(tree)}}
